@@ -249,6 +249,115 @@ def run(ck, prog, ctx):
                                 if a[0] == "call" and a[3] == w.id and a[1].startswith(ARENA + "::get"):
                                     pk |= params_of(pvn.of_operand(w, w.blocks[a[4]].term.args[1]), w.id)
                     ck.ob("ROLE", "cache-write/%s/same-term" % w.short, rk == pk and len(rk) == 1, "the cache of term `%s` is built from the parents of term `%s`" % ("/".join(w.local_name(p) for p in rk), "/".join(w.local_name(p) for p in pk)), where=w.where(s.line))
+    # a parent's closure is only read once it is known to be built: every read of `all_parents` in the cache-building code is
+    # preceded on every path by the cache test (positive edge) or by a call that builds that cache
+    getter = TI + "::all_parents"
+    builders = set(cache_writers)
+    scope = {wid for wid in cache_writers if prog.bodies[wid].kind in ("Fn", "AssocFn")}
+    if cat is not None:
+        scope |= {x for x in prog.reachable_bodies([cat.id]) if x in prog.bodies and prog.bodies[x].kind in ("Fn", "AssocFn") and x.startswith("ontology::builder::")}
+    nreads = 0
+    for bid in sorted(scope):
+        b = prog.bodies[bid]
+        reads = [(bi, t) for bi, t in b.calls() if t.callee.res == getter]
+        if not reads:
+            continue
+        tests = [(bi, t) for bi, t in b.calls() if (t.callee.res or "").endswith("HpoTermInternal::parents_cached")]
+        pos_edges = set()
+        for tbi, tt in tests:
+            for e in positive_edges(b, pvn, tbi):
+                pos_edges.add(e)
+        build_blocks = {bi for bi, t in b.calls() if t.callee.res in builders}
+        for bi, t in reads:
+            nreads += 1
+            # is the read reachable from the entry without passing a positive cache test edge or a cache-building call?
+            seen, st = set(), [0]
+            reached = False
+            while st:
+                x = st.pop()
+                if x in seen:
+                    continue
+                seen.add(x)
+                if x == bi:
+                    reached = True
+                    break
+                if x in build_blocks:
+                    continue
+                for y in b.succ[x]:
+                    if (x, y) in pos_edges:
+                        continue
+                    st.append(y)
+            # the term whose cache is read: the function's own term (being written right now) is exempt
+            ck.ob("ROLE", "cache-read/%s/%d" % (b.short, len([1 for r in reads if r[0] < bi])), not reached,
+                  "%s reads a term's ancestor cache %s" % (b.short, "only after the cache test succeeded or the cache was built" if not reached else "(line %s) on a path where it may not be built yet: ancestors are silently missing depending on the order of terms" % t.line), where=b.where(t.line))
+    ck.floor("ROLE", "ancestor-cache reads in the cache construction", nreads, 1)
+
+    # the closure never contains the term itself: no union/insert operand of the cache writer is the term's own id
+    for wid in sorted(cache_writers):
+        w = prog.bodies[wid]
+        if w.kind not in ("Fn", "AssocFn"):
+            continue
+        own = []
+        for bi, t in w.calls():
+            nm = t.callee.res or t.callee.deff or ""
+            if nm.endswith("HpoGroup::insert") or ("BitOr" in (t.callee.def_args or "") and "HpoGroup" in (t.callee.def_args or "")) or (t.callee.trait == "std::ops::Add" and "HpoGroup" in (t.callee.def_args or "")):
+                for x in t.args[1:]:
+                    og = origins(w, pvn, x)
+                    if any(o[0] == "param" and "HpoTermId" in w.locals[o[1]]["s"] for o in og) and not any(o[0] == "call" for o in og):
+                        own.append((bi, t))
+        ck.ob("ROLE", "cache-write/%s/no-self" % w.short, not own, "%s %s" % (w.short, "never adds the term's own id to its ancestor cache" if not own else "adds the term's own id to its ancestor cache (line %s): a term becomes its own ancestor" % own[0][1].line), where=w.where())
+
+    # binary path: the parent section is written as (count, term, parents...) and read back as add_parent(parent, term)
+    wb = prog.body(TI + "::parents_as_byte")
+    rb = prog.one(r"^ontology::builder::Builder::<ontology::builder::AllTerms>::add_parent_from_bytes$")
+    if wb is not None and rb is not None:
+        seq = []
+        for bi, t in wb.calls():
+            if t.callee.method in ("append", "extend_from_slice", "extend", "push") and t.args and re.search(r"Vec::?<u8>", t.callee.def_args or ""):
+                at = pvn.of_operand(wb, t.args[1])
+                names = {a[1].rsplit("::", 1)[-1] for a in at if a[0] == "call"}
+                if "len" in names:
+                    lab = "count"
+                elif "next" in names:
+                    lab = "parent"
+                elif "id" in names or ("field", TI, "id") in {(a[0], a[1], a[2]) for a in at if a[0] == "field"}:
+                    lab = "term"
+                else:
+                    lab = "?"
+                seq.append((bi, lab))
+        order = [l for _, l in sorted(seq, key=lambda x: len([y for y, _ in seq if y != x[0] and wb.dominates(y, x[0])]))]
+        ck.ob("ROLE", "binary-edge/writer", order == ["count", "term", "parent"], "parents_as_byte writes %s (expected count, term, parent...)" % order, where=wb.where())
+        loops = rb.natural_loops()
+        for bi, t in rb.calls():
+            if (t.callee.res or "").endswith("::add_parent_unchecked"):
+                encl = sorted([(len(bl), h) for h, bl in loops.items() if bi in bl])
+                if len(encl) < 2:
+                    ck.undecided("ROLE", "binary-edge/reader", "nested read loops not recognised", where=rb.where(t.line))
+                    continue
+                inner = loops[encl[0][1]]
+
+                def def_blocks(op):
+                    out = set()
+                    if op.place is None:
+                        return out
+                    work, seen = [op.place.local], set()
+                    while work:
+                        l = work.pop()
+                        if l in seen:
+                            continue
+                        seen.add(l)
+                        for kind, pos, d in pvn.defs(rb).get(l, []):
+                            if kind == "call":
+                                out.add(pos[0])
+                            elif d.rv["k"] == "use" and d.rv["op"].place is not None:
+                                work.append(d.rv["op"].place.local)
+                            else:
+                                out.add(pos[0])
+                    return out
+                pb, tb = def_blocks(t.args[1]), def_blocks(t.args[2])
+                ok = bool(pb) and pb <= inner and bool(tb) and not (tb & inner)
+                ck.ob("ROLE", "binary-edge/reader", ok, "add_parent_from_bytes links (id read %s the parent loop, id read %s the parent loop) as (parent, child)" % ("inside" if pb <= inner else "outside", "outside" if not (tb & inner) else "inside"), where=rb.where(t.line))
+
     # memo helper: a missing parent cache is computed on the not-cached edge
     memo = []
     for b in prog.production():
